@@ -318,7 +318,7 @@ var (
 	pendingWho    = map[*value]string{}
 	ownStructs    = map[*value]bool{} // first cell of the acting connection's own objects
 	mutexNames    = map[*value]string{}
-	fieldLogTypes = map[string]bool{"clientState": true, "clientCxn": true, "redisStats": true, "cmdDispatcher": true, "dataStoreSet": true, "dataStore": true}
+	fieldLogTypes = map[string]bool{"clientState": true, "clientCxn": true, "redisStats": true, "cmdDispatcher": true, "dataStoreSet": true, "dataStore": true, "redisDict": true}
 	lockClass     = map[*value]string{}
 	lockInst      = map[*value]*value{}
 	lockOrderLog  = map[string]lockEdge{}
